@@ -1,6 +1,169 @@
-/-! line protocol for C14 (stub: no model yet) -/
-namespace ObiVerif.Driver.C14
+import ObiVerif.Model.Tax
+import ObiVerif.Driver.Util
+/-!
+line protocol for C14
 
-def run (_line : String) : String := "bad-op"
+`tax n<id>:<parent>:<rankhex>… a<old>:<new>… q<op>:<args>…`
+
+the nodes (`AddNewTaxa` in that order, then `ReindexParent`), the aliases (`AddNewAlias(new, old)` in
+that order), then the queries; the result is one word per query (or `reindex-err`).
+
+queries: `path:x` `lca:x:y` `sub:x:y` `rank:x:r` `has:x:r` `res:x` `val:s` `rt:c,c:s` `ig:c,c:s`
+`rr:r,r:s` `flt:r,r:c,c:i,i:s` `rs:c:s` `sr:r:s` `wl:k=w,k=w` `wls:s` (s = taxid attribute of the sequence or `-`; r = rank in hex)
+-/
+namespace ObiVerif.Driver.C14
+open ObiVerif.Tax ObiVerif.Driver
+
+def rankOf (h : String) : Option String :=
+  (unhex h).bind fun b => String.fromUTF8? (ByteArray.mk b.toArray)
+
+def parseNode (w : String) : Option (Nat × Node) :=
+  match (w.drop 1).toString.splitOn ":" with
+  | [i, p, r] => do
+    let i ← i.toNat?
+    let p ← p.toNat?
+    let r ← rankOf r
+    pure (i, ⟨p, r⟩)
+  | _ => none
+
+def parseAlias (w : String) : Option (Nat × Nat) :=
+  match (w.drop 1).toString.splitOn ":" with
+  | [o, n] => do
+    let o ← o.toNat?
+    let n ← n.toNat?
+    pure (o, n)
+  | _ => none
+
+def natList (s : String) : Option (List Nat) :=
+  if s = "" then some [] else (s.splitOn ",").mapM String.toNat?
+
+def rankListOf (s : String) : Option (List String) :=
+  if s = "" then some [] else (s.splitOn ",").mapM rankOf
+
+def kwList (s : String) : Option (List (Nat × Nat)) :=
+  if s = "" then some [] else (s.splitOn ",").mapM fun kv =>
+    match kv.splitOn "=" with
+    | [k, w] => do
+      let k ← k.toNat?
+      let w ← w.toNat?
+      pure (k, w)
+    | _ => none
+
+def seqAttr (s : String) : Option (Option Nat) :=
+  if s = "-" then some none else s.toNat?.map some
+
+def showBad : Bad → String
+  | .err => "err" | .panic => "panic" | .hang => "hang" | .fatal => "fatal"
+
+def showRes {α : Type} (f : α → String) : Res α → String
+  | .ok a => f a
+  | .error e => showBad e
+
+def showBool (b : Bool) : String := if b then "T" else "F"
+def showOpt : Option Nat → String
+  | some x => toString x
+  | none => "nil"
+
+def query (t : Taxo) (fuel : Nat) (q : String) : Option String :=
+  match (q.drop 1).toString.splitOn ":" with
+  | ["path", x] => do
+    let x ← x.toNat?
+    pure (showRes (fun p => ",".intercalate (p.map toString)) (taxoPath t fuel x))
+  | ["lca", x, y] => do
+    let x ← x.toNat?
+    let y ← y.toNat?
+    match resolve t x, resolve t y with
+    | some x, some y => pure (showRes toString (lca t fuel x y))
+    | _, _ => pure "unk"
+  | ["sub", x, y] => do
+    let x ← x.toNat?
+    let y ← y.toNat?
+    match resolve t x, resolve t y with
+    | some x, some y => pure (showRes showBool (isSubCladeOf t y fuel x))
+    | _, _ => pure "unk"
+  | ["rank", x, r] => do
+    let x ← x.toNat?
+    let r ← rankOf r
+    match resolve t x with
+    | some x => pure (showRes showOpt (taxonAtRank t r fuel x))
+    | none => pure "unk"
+  | ["has", x, r] => do
+    let x ← x.toNat?
+    let r ← rankOf r
+    match resolve t x with
+    | some x => pure (showRes showBool (hasRankDefined t r fuel x))
+    | none => pure "unk"
+  | ["res", x] => do
+    let x ← x.toNat?
+    pure (match resolve t x with | some z => toString z | none => "unk")
+  | ["val", s] => do
+    let s ← seqAttr s
+    pure (showBool (isValidTaxon t (seqTaxid s)))
+  | ["rt", cs, s] => do
+    let cs ← natList cs
+    let s ← seqAttr s
+    if cs.isEmpty then none else
+    pure (showRes showBool (restrictTo t fuel cs (seqTaxid s)))
+  | ["ig", cs, s] => do
+    let cs ← natList cs
+    let s ← seqAttr s
+    if cs.isEmpty then none else
+    pure (showRes showBool (ignoreTaxon t fuel cs (seqTaxid s)))
+  | ["rr", rs, s] => do
+    let rs ← rankListOf rs
+    let s ← seqAttr s
+    if rs.isEmpty then none else
+    pure (showRes showBool (requireRanks t fuel rs (seqTaxid s)))
+  | ["sr", r, s] => do
+    let r ← rankOf r
+    let s ← seqAttr s
+    pure (showRes (fun
+      | none => "none"
+      | some none => "-1"
+      | some (some z) => toString z) (setTaxonAtRank t fuel r (seqTaxid s)))
+  | ["flt", rs, cs, is, s] => do
+    let rs ← rankListOf rs
+    let cs ← natList cs
+    let is ← natList is
+    let s ← seqAttr s
+    pure (showRes showBool (taxFilter t fuel rs cs is (seqTaxid s)))
+  | ["rs", c, s] => do
+    let c ← seqAttr c
+    let s ← seqAttr s
+    pure (showRes showBool (inCladeSlot t fuel c (seqTaxid s)))
+  | ["wls", s] => do
+    let s ← seqAttr s
+    pure (showRes showOpt (weightedLca t fuel [(s.getD 0, 1)]))
+  | ["wl", kws] => do
+    let kws ← kwList kws
+    pure (showRes showOpt (weightedLca t fuel kws))
+  | _ => none
+
+def build (nodes : List (Nat × Node)) (aliases : List (Nat × Nat)) : Taxo :=
+  let mx := nodes.foldl (fun m p => max m p.1) 0
+  let arr : Array (Option Node) := nodes.foldl (fun a p => a.set! p.1 (some p.2)) (Array.replicate (mx + 1) none)
+  addAliases { ids := nodes.map (·.1), node := fun k => (arr[k]?).join, alias := fun _ => none } aliases
+
+def runTax (ws : List String) : String :=
+    let ns := ws.filter (·.startsWith "n")
+    let as := ws.filter (·.startsWith "a")
+    let qs := ws.filter (·.startsWith "q")
+    if ns.length + as.length + qs.length ≠ ws.length then "bad-op" else
+    match ns.mapM parseNode, as.mapM parseAlias with
+    | some nodes, some aliases =>
+      if (nodes.map (·.1)).eraseDups.length ≠ nodes.length then "bad-op" else
+      let t := build nodes aliases
+      if !reindexOk t then "reindex-err" else
+      match qs.mapM (query t (nodes.length + 1)) with
+      | some rs => if rs.isEmpty then "-" else joinSp rs
+      | none => "bad-op"
+    | _, _ => "bad-op"
+
+/-- `tax` (API) and `taxd` (dump directory) load the same data: one model -/
+def run (line : String) : String :=
+  match words line with
+  | "tax" :: ws => runTax ws
+  | "taxd" :: ws => runTax ws
+  | _ => "bad-op"
 
 end ObiVerif.Driver.C14
